@@ -102,6 +102,16 @@ def compute_helper_escapes(repo: Repo) -> None:
 CALL_ARGS: Dict[str, Dict[str, List[ast.AST]]] = {}  # callee fq -> parameter -> argument expressions at its call sites
 
 
+def _literal_alternatives(e: ast.AST) -> Optional[List[str]]:
+    """the string literals a constant / conditional expression of constants can evaluate to; None for anything else"""
+    if isinstance(e, ast.Constant) and isinstance(e.value, str):
+        return [e.value]
+    if isinstance(e, ast.IfExp):
+        a, b = _literal_alternatives(e.body), _literal_alternatives(e.orelse)
+        return a + b if a is not None and b is not None else None
+    return None
+
+
 def compute_tainted_params(repo: Repo, mods: List[str]) -> None:
     """Inter-procedural step: a parameter is tainted when some call site in the emit modules passes spec text for it.
     Callees are resolved by method/function name inside the emit modules (over-approximation)."""
@@ -133,7 +143,14 @@ def compute_tainted_params(repo: Repo, mods: List[str]) -> None:
                     pairs = list(zip(params, c.args)) + [(k.arg, k.value) for k in c.keywords if k.arg in params]
                     if _round == 0:
                         for pname, arg in pairs:
-                            CALL_ARGS.setdefault(tgt.fq, {}).setdefault(pname, []).append(arg)
+                            # a local that is only ever bound to literals (`message = "a" if c else "b"`) is passed as those literals
+                            exp = [arg]
+                            if isinstance(arg, ast.Name):
+                                ds = ft.prov.defs.get(arg.id, [])
+                                if ds and arg.id not in fn.params and all(_literal_alternatives(d) is not None for d in ds):
+                                    exp = list(ds)
+                            for a_ in exp:
+                                CALL_ARGS.setdefault(tgt.fq, {}).setdefault(pname, []).append(a_)
                     for pname, arg in pairs:
                         if pname in ("context", "writer", "self"):
                             continue
@@ -598,7 +615,7 @@ def run(repo: Repo, rep: Report, tier: str) -> None:
                         # a parameter that only ever receives plain literals (no quote, backslash or line break) at its call sites
                         if isinstance(h, ast.Name) and h.id in fn.params:
                             args_ = CALL_ARGS.get(fn.fq, {}).get(h.id, [])
-                            if args_ and all(isinstance(a, ast.Constant) and isinstance(a.value, str) and not any(ch in a.value for ch in '"\'\\\n\r') for a in args_):
+                            if args_ and all(_literal_alternatives(a) is not None and not any(ch in v_ for v_ in (_literal_alternatives(a) or []) for ch in '"\'\\\n\r') for a in args_):
                                 unproven = []
                         if unproven and not SAFE_NAME_RE.search(leaf.split(".")[-1]):
                             tainted = [f"{u} (not known to be identifier-like)" for u in unproven]
